@@ -288,6 +288,42 @@ def c02(ast, fns, consts, macros):
                 lpm.append(render(n.ast))
     OBS.append({"rule": "COPERAND", "construct": "facts", "pos": "-", "ok": True, "detail": json.dumps({"good": facts, "lpm_key": sel, "domain": dom, "lpm": lpm})[:9000]})
 
+_CW = {"__u8": 1, "u8": 1, "unsigned char": 1, "char": 1, "_Bool": 1, "bool": 1, "__u16": 2, "__be16": 2, "unsigned short": 2, "short": 2, "__u32": 4, "__be32": 4, "unsigned int": 4, "int": 4,
+       "__u64": 8, "__be64": 8, "unsigned long long": 8, "long long": 8, "unsigned long": 8, "long": 8}
+
+def equal16_rule(fns):
+    """the 16-byte comparison used for process names compares all 128 bits: both 64-bit halves (or all four
+    words) of both operands are read, and no 64-bit intermediate is narrowed before the truth value is taken"""
+    f = fns.get("equal16")
+    if f is None:
+        ob("OPERAND", "pname-equality-covers-16-bytes", None, False, "equal16 not found: rule lost its anchor")
+        return
+    narrow = []
+    idx = {}
+    def v(x):
+        k = x.get("kind")
+        if k in ("ImplicitCastExpr", "CStyleCastExpr") and x.get("castKind") == "IntegralCast":
+            dst = x.get("type", {}).get("desugaredQualType") or x.get("type", {}).get("qualType", "")
+            ch = inner(x)
+            src = (ch[0].get("type", {}).get("desugaredQualType") or ch[0].get("type", {}).get("qualType", "")) if ch else ""
+            ds, ss = _CW.get(dst.replace("const ", "")), _CW.get(src.replace("const ", ""))
+            if ds and ss and ss == 8 and ds < 8 and strip(ch[0]).get("kind") != "IntegerLiteral":
+                narrow.append("%s -> %s at line %s" % (src, dst, lineof(x)))
+        if k == "ArraySubscriptExpr":
+            b, i = inner(x)
+            base = render(b)
+            m = re.search(r"\b([xy])\b", base)
+            iv = strip(i)
+            if m and iv.get("kind") == "IntegerLiteral":
+                et = (x.get("type", {}).get("desugaredQualType") or x.get("type", {}).get("qualType", "")).replace("const ", "")
+                w = _CW.get(et) or _CW.get(x.get("type", {}).get("qualType", "").replace("const ", "")) or 4
+                idx.setdefault(m.group(1), set()).update(range(int(iv["value"]) * w, int(iv["value"]) * w + w))
+    walk_ast(f, v)
+    cover = all(idx.get(p, set()) >= set(range(16)) for p in ("x", "y"))
+    ob("OPERAND", "pname-equality-covers-16-bytes", f.get("loc", {}).get("line"), cover and not narrow,
+       "equal16 (process-name equality in route()) reads all 16 bytes of both operands (covered: x %d, y %d) and narrows no 64-bit intermediate%s — the control plane writes and compares all 16 bytes"
+       % (len(idx.get("x", ())), len(idx.get("y", ())), "" if not narrow else " — NARROWED: " + "; ".join(narrow)))
+
 def main():
     prop, repo, verif = sys.argv[1], sys.argv[2], sys.argv[3]
     ast = load_ast(repo, verif)
@@ -299,6 +335,7 @@ def main():
     macros = cf.get("macros", {})
     if prop == "C02":
         c02(ast, fns, consts, macros)
+        equal16_rule(fns)
     elif prop == "C03":
         import crules_c03
         crules_c03.run(ast, fns, consts, macros, cf, ob, OBS)
